@@ -2,7 +2,7 @@
    `Decomp`, the reported offsets are EXACTLY the offsets where a member starts, in ascending order,
    and every reported length is a member length; then the instance for flat patterns (every flat hex
    string, every run), where `Decomp` is proved (Proofs/DecompProofs.v). *)
-From Boreal Require Import Base.Prelude Spec.Regex Model.Hir Model.Widen Model.Validator Model.Raw Model.HirScan
+From Boreal Require Import Base.Prelude Base.Consts Spec.Regex Model.Hir Model.Widen Model.Validator Model.Raw Model.HirScan
   Model.Decomp Proofs.RegexBasics Proofs.RegexStruct Proofs.HexScanProofs Proofs.ValidatorProofs Proofs.DecompProofs.
 From Coq Require Import Sorted.
 
@@ -118,5 +118,5 @@ Proof.
   - right. apply flat_glue; assumption.
   - apply flat_split; assumption.
   - apply expand_nonempty. exact HRne.
-  - unfold MAX_SPLIT_MATCH_LENGTH, umax in *. lia.
+  - unfold MAX_SPLIT_MATCH_LENGTH, Consts.MAX_SPLIT_MATCH_LENGTH, umax in *. lia.
 Qed.
